@@ -1,6 +1,6 @@
 """C08 — JSONPath evaluation returns exactly the items the path denotes."""
 from .. import gen
-from . import common, longpaths, pyjsonpath
+from . import common, longpaths, pyjsonpath, sizes
 
 SPEC_THEOREM = ('Props/C08: the evaluator never panics on parser-producible paths; selection = PathSem semantics on the decoded tree; '
                 'C08_bytes_*: the offset-faithful selector (SelWalk.v: byte positions, no decoding) on enc v = the tree evaluator on normalise v')
@@ -34,6 +34,29 @@ def generate(ctx):
             kinds = [s[0] for s in p.split(';')]
             for a, b in zip(kinds, kinds[1:]):
                 ctx.count('step_pairs', a + b)
+    # first / middle / last index and name, wildcards and a filter deciding on the last member, on containers of 255 .. 1000 members
+    # and on documents with strings / keys of 255 .. 65536 bytes (sizes.py; second review H2); judged by the independent evaluator
+    for lab, v in sizes.string_docs() + sizes.container_docs():
+        if v[0] not in 'ao':
+            continue
+        e = gen.hexarg(gen.enc(v))
+        n = len(v[1])
+        if v[0] == 'a':
+            ps = ['R;I(x%d)' % i for i in (0, n // 2, n - 1, n)] + ['R;I(l0)', 'R;I(l-1,x0,l0)', 'R;I(Sl-1~l5)', 'R;I(Sx%d~x%d)' % (n - 2, n + 3), 'R;B']
+            last = v[1][-1]
+            if last[0] in 'sui':
+                ps.append('R;B;Fbeq(p(C)|%s)' % common.expr_text(('v', last)))
+                ps.append('Pbeq(p(R;I(l0))|%s)' % common.expr_text(('v', last)))
+        else:
+            ks = [k for _, (k, _) in sizes.first_mid_last(v)]
+            ps = ['R;%s%s' % (c, k.hex()) for c, k in zip('DKO', ks)] + ['R;D%s' % (ks[-1] + b'x').hex(), 'R;W', 'R;W;Fe(C)', 'Pe(R;O%s)' % ks[-1].hex()]
+            last = v[1][-1][1]
+            if last[0] in 'sui':
+                ps.append('R;W;Fbeq(p(C)|%s)' % common.expr_text(('v', last)))
+        for p in ps:
+            ctx.add('select %s %s %s' % (e, p, 'all' if not lab.startswith(('obj1000', 'arr1000')) else r.choice(['all', 'array'])), meta=('sel', v, p))
+        ctx.add('sel_exists %s %s' % (e, ps[2]))
+        ctx.add('get_by_path_first %s %s' % (e, ps[1]))
     # long chains of && / ||, deep parentheses, nested exists(), filters inside filters: the evaluators of the model recurse on
     # the structure of the expression (no fuel); the crate must agree however long the expression is
     ldocs = [v for v in ds if len(gen.enc(v)) <= 200][:40]
